@@ -3,7 +3,8 @@ PROP = dict(
     lean_modules=["TongoProofs.C10", "TongoProofs.C09"],
     gen=["LiteApi"],
     # the model IS the specification for these: the TL rules applied to the schema text carried in the line
-    spec_ops=("tl.enc", "tl.dec", "tl.fenc", "tl.fdec", "tl.req", "tl.ans", "tl.reqdec", "tl.crcid", "tl.schema",
+    info_ops=("tl.crcid",),  # id spelled in the schema vs CRC-32 of the declaration text: outside C10 (the property speaks of the id given in the schema line); reported in the evidence only
+    spec_ops=("tl.enc", "tl.dec", "tl.fenc", "tl.fdec", "tl.req", "tl.ans", "tl.reqdec", "tl.schema",
               "tl.hw."),
     rule="for every declaration of lite_api.tl (45 types: single-constructor types through their bare constructor, "
          "multi-constructor types and the hand-written liteServer.SignatureSet boxed; 29 functions: parameter struct, "
